@@ -139,3 +139,30 @@ Theorem C02_next_data_is_source : forall (err_of : Z -> gerr),
   end.
 Proof. exact next_data_is_generated. Qed.
 Print Assumptions C02_next_data_is_source.
+
+(* ---- parseData IS the source ----
+   Gen/DemuxGen.v (Section ParseData) is translated from the current /repo/data.go on every run: the custom
+   PacketsParser first, the payload rebuilt from all packets of the group, then the dispatch on the first packet's
+   PID (CAT / isPSIPayload / isPESPayload on the rebuilt payload).  parse_data is that regenerated function, for every
+   world, every bytesPool.get returning a slice of the requested length, and the unit parsers the model's dparsers
+   record is built from (psi_parse, to_data, pes_parse arbitrary; Model/DemuxFull.v's full_parsers is, by
+   definition, parsers_of parse_psi_data_bytes psi_to_data parse_pes_data_bytes).  Scoping: a failing
+   PacketsParser is reported with the generic code by the model whatever it wraps; the statement is for parsers whose
+   errors carry the generic code. *)
+Require Import Proofs.DemuxGenEqParse.
+
+Theorem C02_parse_data_is_source : forall (W : Type) (get : W -> Z -> outcome (list Z * W)),
+  (forall w n, 0 <= n -> exists bs w', get w n = Done (bs, w') /\ Z.of_nat (length bs) = n) ->
+  forall (err_of : Z -> gerr), (forall c, code_x (err_of c) = norm c) ->
+  forall psi_parse to_data pes_parse ps gprs pm w, generic_errors gprs ->
+  match parseData W get (psi_m W err_of psi_parse) (to_data_m W to_data) (pes_m W err_of pes_parse)
+                  ps gprs (pm_mem pm) w with
+  | Done (ds, None, _) => parse_data (parsers_of psi_parse to_data pes_parse) (option_map unembed_parser gprs) pm ps = Ok ds
+  | Done (_, Some e, _) =>
+      exists c, parse_data (parsers_of psi_parse to_data pes_parse) (option_map unembed_parser gprs) pm ps = Err c /\
+                code_x e = norm c
+  | Panicked | OutOfFuel =>
+      parse_data (parsers_of psi_parse to_data pes_parse) (option_map unembed_parser gprs) pm ps = Panic
+  end.
+Proof. exact parse_data_is_generated. Qed.
+Print Assumptions C02_parse_data_is_source.
